@@ -194,6 +194,36 @@ def write_workbook(path, sheets, options=None):
             workbook.worksheets()[pending_activation[0]].activate()
     finally:
         workbook.close()
+    if options.get("relocate"):
+        _relocate_sheet_parts(path)
+
+
+def _relocate_sheet_parts(path):
+    """Move the worksheet parts out of xl/worksheets/ (the second one and those behind it to xl/more/, the first one
+    to xl/first.xml).  Which part is which sheet is said by xl/_rels/workbook.xml.rels, not by where a part lies or
+    what it is called."""
+    import zipfile
+
+    with zipfile.ZipFile(path) as archive:
+        members = [(info, archive.read(info.filename)) for info in archive.infolist()]
+    renamed = {}
+    for info, _ in members:
+        name = info.filename
+        if name.startswith("xl/worksheets/sheet") and name.endswith(".xml"):
+            number = name[len("xl/worksheets/sheet"):-len(".xml")]
+            renamed[name] = "xl/first.xml" if number == "1" else "xl/more/part%s.xml" % number
+    with zipfile.ZipFile(path, "w", zipfile.ZIP_DEFLATED) as archive:
+        for info, content in members:
+            name = info.filename
+            if name in ("xl/_rels/workbook.xml.rels", "[Content_Types].xml"):
+                text = content.decode("utf-8")
+                for old, new in renamed.items():
+                    if name.endswith(".rels"):
+                        text = text.replace('Target="%s"' % old[len("xl/"):], 'Target="%s"' % new[len("xl/"):])
+                    else:
+                        text = text.replace('PartName="/%s"' % old, 'PartName="/%s"' % new)
+                content = text.encode("utf-8")
+            archive.writestr(renamed.get(name, name), content)
 
 
 def write_text_table(path, rows, sheet=1, other_sheets=None):
